@@ -252,6 +252,22 @@ class Evaluator:
             return self.eval(e.args[2], env) if len(e.args) == 3 else U
         if isinstance(e, ast.Call) and isinstance(e.func, ast.Name) and e.func.id in ("list", "tuple", "sorted", "copy", "deepcopy") and len(e.args) == 1 and not e.keywords:
             return self.eval(e.args[0], env)  # a copy denotes the same values
+        if isinstance(e, ast.Call) and isinstance(e.func, ast.Name) and e.func.id in ("bool", "str", "int", "float") and len(e.args) == 1 and not e.keywords:
+            inner = self.eval(e.args[0], env)
+            out = set()
+            for x in inner:
+                if x.kind == "const":
+                    try:
+                        out.add(Val("const", {"bool": bool, "str": str, "int": int, "float": float}[e.func.id](x.value)))
+                    except Exception:
+                        return U
+                elif x.kind == "sym" and e.func.id == "bool" and isinstance(getattr(x, "default", None), bool):
+                    out.add(x)  # a flag option stays the same option
+                elif x.kind == "sym" and e.func.id == "str" and isinstance(getattr(x, "default", None), str):
+                    out.add(x)
+                else:
+                    return U
+            return frozenset(out) if out else U
         if isinstance(e, ast.BinOp) and isinstance(e.op, ast.Add):
             l, r = self.eval(e.left, env), self.eval(e.right, env)
             if len(l) == 1 and len(r) == 1:
